@@ -103,7 +103,7 @@ def finish(ctx: Ctx, level_explanation: str, out=sys.stdout) -> int:
             json.dump({"property": ctx.prop, "rule": f.rule, "key": f.key, "loc": f.loc, "message": f.message,
                        "detail": _jsonable(f.detail), "tier": ctx.tier}, fh, indent=1)
         replay_paths.append(rp)
-        print(f"  {f.loc}: [{f.rule}] {f.message}", file=out)
+        print(f"  {f.loc}: [{f.rule}] {f.message}  <{f.key}>", file=out)
         print(f"VIOLATION property={ctx.prop} replay={rp}", file=out)
     floor_fail = [(r, n, m) for r, n, m in ctx.floors if n < m]
     n_obl = len(ctx.obligations)
